@@ -387,6 +387,69 @@ def case_path_independence(rep):
     return fn
 
 
+def case_load_path(rep):
+    """Ramped load items (no state variables): the load of substep i is the i-th ramp value, so an elastic problem ends in
+    the same state whether an item is constructed with its final value, ramped to it in one substep or along a detour.
+    The final values are drawn here (not read back from the items)."""
+    def fn(run):
+        import felupe as fem
+        rng = rng_for(run.seed, "C15", "load-path", rep)
+        kind, fam, which = [("axisymmetric", "quad", "pointload-axi"), ("3d", "hexahedron", "pressure"), ("planestrain", "quad", "force"),
+                            ("axisymmetric", "quad", "pressure"), ("3d", "hexahedron", "pointload"), ("mixed", "hexahedron", "pointload-apply-on"),
+                            ("axisymmetric", "quad", "force"), ("3d", "tetra", "force")][rep % 8]
+        finals = []
+        state = rng.bit_generator.state
+        for variant in ("constructed", "one-substep", "detour"):
+            r2 = np.random.default_rng(0)
+            r2.bit_generator.state = state
+            field, bounds, lc, items, mesh = C07.build(r2, kind, fam, "NeoHooke", ())
+            d = field[0].dim
+            L = mesh.points.max(0)
+            target = 0.1 * float(L[0])
+            if which.startswith("pointload"):
+                free = np.setdiff1d(np.arange(mesh.npoints), np.unique(np.concatenate([b.points for b in bounds.values()])))
+                pts = free[mesh.points[free, -1 if mesh.dim == 3 else 1] > 0.3 * L[-1 if mesh.dim == 3 else 1]][:2]
+                final = r2.uniform(-0.02, 0.02, (1, d))
+                kw = {"axisymmetric": True} if which == "pointload-axi" else ({"apply_on": 0} if which == "pointload-apply-on" else {})
+                make = lambda v: fem.PointLoad(field, pts, values=v, **kw)
+                shape = lambda fr: np.array([f * final for f in fr])
+            elif which == "pressure":
+                mask = np.isclose(mesh.points[:, 1], L[1])
+                if mesh.dim == 3:
+                    fb = fem.FieldContainer([fem.Field(fem.RegionHexahedronBoundary(mesh, mask=mask), dim=3)])
+                else:
+                    rb = fem.RegionQuadBoundary(mesh, mask=mask, ensure_3d=True)
+                    fb = fem.FieldContainer([(fem.FieldAxisymmetric if kind == "axisymmetric" else fem.FieldPlaneStrain)(rb, dim=2)])
+                final = float(r2.uniform(0.05, 0.2)) * (1 if r2.integers(0, 2) else -1)
+                make = lambda v: fem.SolidBodyPressure(fb, pressure=v)
+                shape = lambda fr: np.array([f * final for f in fr])
+            else:
+                v = r2.uniform(-0.3, 0.3, d)
+                final = np.append(v, 0.0) if kind == "axisymmetric" else v
+                make = lambda v: fem.SolidBodyForce(field, values=v, scale=1.0)
+                shape = lambda fr: np.array([f * final for f in fr])
+            if variant == "constructed":
+                load = make(final)
+                ramp = {bounds["move"]: np.array([target])}
+            elif variant == "one-substep":
+                load = make(0 * final if which != "pressure" else 0.0)
+                ramp = {bounds["move"]: np.array([target]), load: shape([1.0])}
+            else:
+                load = make(0.3 * final)
+                fr = [0.4, -0.3, 0.8, 1.0]
+                ramp = {bounds["move"]: np.array(fr) * target, load: shape(fr)}
+            step = fem.Step(items + [load], ramp=ramp, boundaries=bounds)
+            fem.Job([step]).evaluate(verbose=False, tol=1e-11)
+            finals.append(field_vector(items[0].field).copy())
+        ref = finals[0]
+        for variant, f in zip(("one-substep", "detour"), finals[1:]):
+            run.compare("history.path-independence", "clause=path-independence ramped-item=%s variant=%s" % (which, variant),
+                        maxabs(f - ref) / max(maxabs(ref), 1e-300), 1e-8,
+                        "final state of an elastic problem with a ramped load item differs from the one with the item constructed "
+                        "with its final value", unit="load-path:" + which, config=("load-path", kind, fam, which, variant))
+    return fn
+
+
 def cases(tier, seed):
     out = []
     for rep in range(28 if tier == "quick" else 420):
@@ -399,6 +462,8 @@ def cases(tier, seed):
         out.append(("plasticity:%d" % rep, case_plasticity(rep)))
     for rep in range(5 if tier == "quick" else 15):
         out.append(("path:%d" % rep, case_path_independence(rep)))
+    for rep in range(8 if tier == "quick" else 24):
+        out.append(("load-path:%d" % rep, case_load_path(rep)))
     for rep in range(1 if tier == "quick" else 4):
         out.append(("purity:%d" % rep, case_purity(rep)))
     for rep in range(3 if tier == "quick" else 9):
@@ -412,6 +477,7 @@ SPEC = {
                        "trace:injected-failure-position", "success:commit", "path-independence", "or:running-max:hand", "or:running-max:ad",
                        "or:running-max:tensortrax", "or:primary:hand", "or:primary:tensortrax", "or:reload:hand", "or:reload:tensortrax",
                        "plasticity:yield", "plasticity:monotone", "plasticity:plastic-steps", "trace:state-carries-ramp-value", "trace:generate-with-distinct-x0",
+                       "load-path:pointload-axi", "load-path:pressure", "load-path:force", "load-path:pointload", "load-path:pointload-apply-on",
                        "purity:committed-state-untouched:OgdenRoxburgh", "purity:committed-state-untouched:Plasticity", "purity:repeatable:tt.finite_strain_viscoelastic"],
     "rule": ("random load histories on small solids (hex8, tet4, quad4/8 plane strain, axisymmetric, nearly-incompressible, mixed): 1..3 "
              "steps of 1..5 substeps, monotone/cyclic/repeated/random ramps of 1..3 items (boundary, pressure, point load, body force), "
